@@ -22,6 +22,7 @@ class World:
         self.objs = {}       # name -> CircuitTemplate
         self.handles = {}    # name -> (f, args, names, smap, first_vf_obs, is_jac)
         self.pools = {}
+        self.paths = {}      # name -> YAML template path the object was loaded from (path-cached by PyRates)
         self.fired = {}
         self.probes = {}
         self.states = []
@@ -75,6 +76,10 @@ class World:
         pool = self.pools.setdefault(op['pool'], {}) if op.get('pool') else None
         c = self._with_fault(op.get('fault'), lambda: models.build(spec, pool=pool, fname=op.get('fname')))
         self.objs[op['obj']] = c
+        if spec.get('build') == 'yaml':
+            self.paths[op['obj']] = f"{op.get('fname') or 'model_' + spec['name']}/{spec['name']}"
+        else:
+            self.paths.pop(op['obj'], None)
         return {'status': 'ok'}
 
     def op_update_var(self, op):
@@ -161,8 +166,15 @@ class World:
             rec = Recorder(fault_at=fault['at_eval'])
             kw['decorator'] = rec
             fault = None
+        call = lambda: c.run(T, dt, outputs=outputs, **kw)
+        if op.get('via') == 'integrate' and op['obj'] in self.paths:
+            # the convenience entry point: template path in, results out (it loads through the path cache and, with
+            # clear=True, wipes the frontend caches afterwards)
+            from pyrates import integrate
+            self.bump(self.probes, 'via_integrate')
+            call = lambda: integrate(self.paths[op['obj']], simulation_time=T, step_size=dt, outputs=outputs, **kw)
         try:
-            R = self._with_fault(fault, lambda: c.run(T, dt, outputs=outputs, **kw))
+            R = self._with_fault(fault, call)
         except RHSFault:
             self.bump(self.fired, 'rhs')
             return {'status': 'raised', 'exc': 'RHSFault'}
